@@ -531,3 +531,15 @@ where
         Ok(())
     }
 }
+
+#[cfg(lora_rs_verif)]
+impl<RK, DLY> LoRa<RK, DLY>
+where
+    RK: RadioKind,
+    DLY: DelayNs,
+{
+    /// verification hook (read-only): the driver's belief about the chip: (radio_mode, cold_start, calibrate_image)
+    pub fn verif_state(&self) -> (RadioMode, bool, bool) {
+        (self.radio_mode, self.cold_start, self.calibrate_image)
+    }
+}
